@@ -258,9 +258,18 @@ class Model:
         """follow package re-exports: 'synapgrad.no_grad' -> 'synapgrad.tensor.no_grad'"""
         if dotted is None or depth > 8:
             return dotted
-        if dotted in self.funcs or dotted in self.classes or dotted in self.modules:
+        if dotted in self.funcs or dotted in self.classes:
             return dotted
         parts = dotted.split('.')
+        if dotted in self.modules:
+            # a package attribute re-exported by __init__ shadows the submodule of the same name
+            # (synapgrad.tensor is the function `tensor`, not the module, because __init__ imports it)
+            pkg = self.modules.get('.'.join(parts[:-1]))
+            if pkg is not None and getattr(pkg, 'is_pkg', False) and parts[-1] in pkg.aliases:
+                tgt = pkg.aliases[parts[-1]]
+                if tgt != dotted and (tgt in self.funcs or tgt in self.classes):
+                    return tgt
+            return dotted
         for i in range(len(parts) - 1, 0, -1):
             head, rest = '.'.join(parts[:i]), parts[i:]
             m = self.modules.get(head)
